@@ -26,6 +26,7 @@ def prepare(rp, ce, params):
     if (trace_val(ce, "depth") or trace_val(ce, "rep_depth") or trace_val(ce, "halt0")) and not ce.get("plain_parent"):
         return None, "parent inside a compute program / with repeat state / already halted: not realised by the replay program"
     below = (seq(m, "s") + [0] * 4)[:trace_val(ce, "slen")]
+    if ce.get("one_below"): below = below + [1]
     mem = (seq(m, "m") + [0] * 4)[:trace_val(ce, "mlen")]
     b = sw(m.get("breadth", 0))
     prefix = "Stack::Push:2;Stack::Push:1;Stack::Repeat:0" if ce.get("in_repeat") else ""
@@ -40,6 +41,10 @@ def prepare(rp, ce, params):
 
 def variants(rp, ce, params):
     """the same program / breadth / stack / memory with a plain parent (top level, no repeat state, not halted)"""
+    if sw((ce.get("model") or {}).get("breadth", 1)) == 0:
+        # an accepted breadth of 0 leaves the parent ON the Compute op, which then takes the next word as breadth: with a 1 below,
+        # the wrong acceptance becomes a successful run where the specification demands an error
+        yield "a word 1 below the breadth", dict(ce, plain_parent=True, one_below=True)
     if trace_val(ce, "depth") == 0 and (trace_val(ce, "rep_depth") or trace_val(ce, "halt0")):
         if trace_val(ce, "rep_depth"):
             yield "parent inside a count-up repeat scope of 2", dict(ce, plain_parent=True, in_repeat=True)
